@@ -131,4 +131,137 @@ theorem loop_decls (brk : Bool) (ds : List (Decl × LineLay)) (D : List (Str × 
         exact hnd.1 (List.mem_map.mpr ⟨x, hx, heq.symm⟩)
       · exact hdis x (by simp [hx]) e h
 
+/-! ### header line -/
+
+theorem headerTokens_tok (sel : List Str) (ht : ∀ t ∈ sel, isTok t) : ∀ t ∈ headerTokens sel, isTok t := by
+  intro t h
+  simp only [headerTokens, List.mem_cons] at h
+  rcases h with rfl | rfl | rfl | h
+  · exact sUTIM_tok
+  · exact sDATE_tok
+  · exact sTIME_tok
+  · exact ht t h
+
+theorem addChannels_ok (D : List (Str × Str × Str)) (mk : Str → Chan) (ns : List Str) (chans : List Chan)
+    (table : List (List Str))
+    (hmk : ∀ n ∈ ns, ∃ desc units, lookup D n = some (desc, units) ∧ mk n = ⟨n, desc, units, isObjectDtype n units⟩)
+    (hnd : ns.Nodup) (hdis : ∀ n ∈ ns, ∀ c ∈ chans, c.name ≠ n) :
+    addChannels D ns chans table = .ok (chans ++ ns.map mk, table ++ List.replicate ns.length []) := by
+  induction ns generalizing chans table with
+  | nil => simp [addChannels]
+  | cons n ns ih =>
+    obtain ⟨desc, units, hl, hm⟩ := hmk n (by simp)
+    rw [List.nodup_cons] at hnd
+    have hany : chans.any (fun c => decide (c.name = n)) = false := by
+      rw [List.any_eq_false]
+      intro c hc
+      simpa using hdis n (by simp) c hc
+    rw [addChannels, hl]
+    simp only [hany, Bool.false_eq_true, if_false]
+    rw [ih _ _ (fun x hx => hmk x (by simp [hx])) hnd.2 ?_]
+    · simp [hm, List.replicate_succ]
+    · intro x hx c hc
+      rcases List.mem_append.mp hc with h | h
+      · exact hdis x (by simp [hx]) c h
+      · simp only [List.mem_singleton] at h
+        rw [h]
+        intro heq
+        have hnx : n = x := heq
+        exact hnd.1 (hnx ▸ hx)
+
+theorem loop_header (brk : Bool) (D : List (Str × Str × Str)) (sel : List Str) (lay : LineLay) (rest : List Str)
+    (hne : sel ≠ []) (ht : ∀ t ∈ sel, isTok t) (hl : lay.wf) :
+    loop brk ⟨D, true, [], [], []⟩ (printLine (headerTokens sel) lay :: rest) =
+      match addChannels D (headerTokens sel) [] [] with
+      | .error e => .error e
+      | .ok (chans, table) => loop brk ⟨D, false, headerTokens sel, chans, table⟩ rest := by
+  rw [loop]
+  simp only [List.length_nil, ne_eq, not_true_eq_false, if_false, if_true,
+    prep_printLine (headerTokens sel) lay (by simp [headerTokens]) (headerTokens_tok sel ht) hl,
+    scanHeader_print sel lay.seps hne ht hl.2.2, splitWs_interleave _ _ (headerTokens_tok sel ht) hl.2.2]
+  rfl
+
+/-! ### data rows -/
+
+theorem appendRow_length (table : List (List Str)) (vals : List Str) (h : vals.length = table.length) :
+    (appendRow table vals).length = table.length := by
+  simp [appendRow, h]
+
+theorem loop_data (D : List (Str × Str × Str)) (defined : List Str) (chans : List Chan) (hlen : defined.length = chans.length)
+    (n : Nat) (lines : List Str) (toks : List (List Str)) (table : List (List Str)) (hT : table.length = n)
+    (h : List.Forall₂ (fun l t => splitWs (prep l) = t ∧ t.length = n) lines toks) :
+    loop false ⟨D, false, defined, chans, table⟩ lines = .ok ⟨D, false, defined, chans, toks.foldl appendRow table⟩ := by
+  induction lines generalizing toks table with
+  | nil => cases h; rfl
+  | cons l ls ih =>
+    cases h with
+    | cons h1 h2 =>
+      rename_i t ts
+      rw [loop]
+      simp only [hlen, ne_eq, not_true_eq_false, if_false, Bool.false_eq_true, h1.1, h1.2, hT]
+      rw [List.foldl_cons]
+      exact ih ts _ (by rw [appendRow_length table t (by omega)]; exact hT) h2
+
+/-! ### transposition -/
+
+theorem zipWith3 (T : List (List Str)) (r : List Str) (X : List (List Str)) :
+    List.zipWith (· ++ ·) (List.zipWith (fun col v => col ++ [v]) T r) X =
+      List.zipWith (· ++ ·) T (List.zipWith List.cons r X) := by
+  induction T generalizing r X with
+  | nil => simp
+  | cons a T ih =>
+    cases r with
+    | nil => simp
+    | cons b r =>
+      cases X with
+      | nil => simp
+      | cons x X => simp [ih]
+
+theorem columns_cons (n : Nat) (r : List Str) (rows : List (List Str)) (hr : r.length = n) :
+    columns [] n (r :: rows) = List.zipWith List.cons r (columns [] n rows) := by
+  induction n generalizing r rows with
+  | zero =>
+    have : r = [] := List.length_eq_zero_iff.mp hr
+    subst this; simp [columns]
+  | succ n ih =>
+    cases r with
+    | nil => simp at hr
+    | cons a r =>
+      simp only [List.length_cons, Nat.add_right_cancel_iff] at hr
+      simp only [columns, List.map_cons, List.headD_cons, List.tail_cons, List.zipWith_cons_cons]
+      rw [ih r _ hr]
+
+theorem columns_length {α : Type} (d : α) (n : Nat) (rows : List (List α)) : (columns d n rows).length = n := by
+  induction n generalizing rows with
+  | zero => rfl
+  | succ n ih => simp [columns, ih]
+
+theorem foldl_appendRow (n : Nat) (rows : List (List Str)) (T : List (List Str)) (hT : T.length = n)
+    (hr : ∀ r ∈ rows, r.length = n) :
+    rows.foldl appendRow T = List.zipWith (· ++ ·) T (columns [] n rows) := by
+  induction rows generalizing T with
+  | nil =>
+    simp only [List.foldl_nil]
+    clear hr
+    induction n generalizing T with
+    | zero => have : T = [] := List.length_eq_zero_iff.mp hT; subst this; simp [columns]
+    | succ n ih =>
+      cases T with
+      | nil => simp at hT
+      | cons a T =>
+        simp only [List.length_cons, Nat.add_right_cancel_iff] at hT
+        simp only [columns, List.map_nil, List.zipWith_cons_cons, List.append_nil]
+        rw [← ih T hT]
+  | cons r rows ih =>
+    have hrl := hr r (by simp)
+    rw [List.foldl_cons, ih (appendRow T r) (by rw [appendRow_length T r (by omega)]; exact hT)
+      (fun x hx => hr x (by simp [hx])), columns_cons n r rows hrl]
+    exact zipWith3 T r _
+
+theorem zipWith_replicate_nil (X : List (List Str)) :
+    List.zipWith (· ++ ·) (List.replicate X.length ([] : List Str)) X = X := by
+  induction X with
+  | nil => rfl
+  | cons x X ih => simp [List.replicate_succ, ih]
+
 end TD.C14
